@@ -116,6 +116,19 @@ def struct_templates():
     t.append("def test(a: Qint[2], b: Qint[2], c: Qint[2]) -> bool:\n    return a < b and b < c")
     t.append("def test(a: Qint[2]) -> Qint[4]:\n    return a * a")
     t.append("def test(a: Qint[2], b: Qint[2]) -> Qint[4]:\n    return (a + b) * 2")
+    # the normaliser (ast2ast): regression programs of the defects found while modelling it
+    t.append("def test(t: Tuple[Tuple[bool, bool], bool]) -> bool:\n    t, a = t\n    return a")
+    t.append("def test(a: bool, b: bool, u: Tuple[Qint[2], bool]) -> bool:\n    t = (a, b)\n    a = not a\n    return t[u[0]]")
+    t.append("def test(a: bool, b: bool, c: bool, u: Tuple[Qint[2], bool]) -> bool:\n    t = (a, b)\n    if c:\n        t = (b, a)\n    return t[u[0]]")
+    t.append("def test(a: bool, b: bool, v: Tuple[bool, bool], u: Tuple[Qint[2], bool]) -> bool:\n    t = (a, b)\n    t = v\n    return t[u[0]]")
+    t.append("def test(m: Qmatrix[bool, 2, 3]) -> bool:\n    r = False\n    for x in m[0]:\n        r = r ^ x\n    return r")
+    t.append("def test(m: Qmatrix[bool, 2, 3], i: Qint[2], j: Qint[2]) -> bool:\n    return m[i][j]")
+    t.append("def test(m: Qmatrix[bool, 3, 2], i: Qint[2], j: Qint[2]) -> bool:\n    return m[i][j]")
+    t.append("def test(a: Tuple[bool, bool]) -> bool:\n    s = False\n    for x in a:\n        a = (s, x)\n        s = s ^ x\n    return s")
+    t.append("def test(a: bool) -> bool:\n    r = a\n    for x in [()]:\n        r = a if x else not a\n    return r")
+    t.append("def test(x: Qint[2]) -> Qint[4]:\n    s = x\n    for i in range(2):\n        s = s + 1\n    else:\n        s = 0\n    return s")
+    t.append("def test(a: Qint[2]) -> Qint[4]:\n    return len(range(3)) + a")
+    t.append("def test(a: Qint[2]) -> Qint[4]:\n    return sum(range(4)) + a")
     # empty tuples inside tuples
     t.append("def test(a: bool, b: bool) -> bool:\n    u = (a, (), b)\n    v = u\n    return v[2] and not v[0]")
     t.append("def test(a: Qint[2], b: bool) -> Qint[2]:\n    u = ((), a, ((), b))\n    v = u\n    return v[1] + 1 if v[2][1] else v[1]")
